@@ -255,7 +255,7 @@ def split_trace(path):
     return behs
 
 
-def validate_traces(ctx, module, strict_cfg, mon_cfg, trace, name, timeout=900, max_drift=25, env_extra=None):
+def validate_traces(ctx, module, strict_cfg, mon_cfg, trace, name, timeout=900, max_drift=6, env_extra=None):
     """step 5: TLC validates the recorded trace.  Strict conformance first; behaviours the
     strict spec cannot explain are re-judged by the monitor (the property alone).
     returns dict(validated, drift=[...], violations=[(invariant, behaviour lines, event index)])"""
